@@ -573,6 +573,13 @@ def _emit_fn_stub(asm, out, unit, kv, block, default_props, reason):
         o.forced = ('undecided', reason)
         o.fnkey = fname
         asm.obligations.append(o)
+    for t in block:
+        m_ = re.match(r'assert\s+@([\w.]+)\s+(?:before_stmt|after_stmt)\s+"(?:[^"\\]|\\.)*"\s+(.*)', t)
+        if m_:
+            oa = Obligation('%s/%s/assert@%s' % (unit, fname, m_.group(1)), 'assert', props, fname, m_.group(2))
+            oa.forced = ('undecided', reason)
+            oa.fnkey = fname
+            asm.obligations.append(oa)
     ob = Obligation('%s/%s/body' % (unit, fname), 'body', props, fname, 'body not verified')
     ob.forced = ('undecided', reason)
     asm.obligations.append(ob)
@@ -610,6 +617,7 @@ def _emit_fn(asm, out, unit, kv, block, default_props):
     ats = []
     befores = []
     sigsubs = []
+    named_asserts = []
     for t in block:
         if t.startswith('rewrite '):
             for rule in t.split()[1:]:
@@ -652,6 +660,11 @@ def _emit_fn(asm, out, unit, kv, block, default_props):
         elif t.startswith('at '):
             m = re.match(r'at\s+(\S+)\s+(.*)', t)
             ats.append((m.group(1), m.group(2)))
+        elif t.startswith('assert '):
+            m = re.match(r'assert\s+@([\w.]+)\s+(before_stmt|after_stmt)\s+"((?:[^"\\]|\\.)*)"\s+(.*)', t)
+            if not m:
+                raise ExtractError("bad assert directive in %s: %s" % (fname, t))
+            named_asserts.append((m.group(1), m.group(2), m.group(3).replace('\\"', '"'), m.group(4)))
         elif t.startswith('before_stmt ') or t.startswith('after_stmt '):
             m = re.match(r'(before_stmt|after_stmt)\s+"((?:[^"\\]|\\.)*)"\s+(.*)', t)
             befores.append((m.group(1), m.group(2).replace('\\"', '"'), m.group(3)))
@@ -733,6 +746,8 @@ def _emit_fn(asm, out, unit, kv, block, default_props):
                 continue
             kind, kwpos, ob, cb = lps[n]
             inserts.append((ob + 1 if m.group(2) == 'start' else cb, '\n            ' + text + '\n'))
+    for (aname, where, anchor, expr) in named_asserts:
+        befores.append((where, anchor, ('named_assert', aname, expr)))
     for ba, anchor, text in befores:
         if ba in ('before_stmt', 'after_stmt'):
             # anchor = the first words of a statement (robust against edits later in the statement)
@@ -744,7 +759,7 @@ def _emit_fn(asm, out, unit, kv, block, default_props):
                 raise ExtractError("anchor lost: %s: statement starting %r occurs %d times" % (fname, anchor, len(ms)))
             st = ms[0].start()
             if ba == 'before_stmt':
-                inserts.append((st, ' ' + text + ' '))
+                inserts.append((st, text if isinstance(text, tuple) else ' ' + text + ' '))
                 continue
             # find the end of the statement: `;` at depth 0, or the `}` closing a block statement (not followed by else)
             depth = 0
@@ -771,7 +786,7 @@ def _emit_fn(asm, out, unit, kv, block, default_props):
                 k += 1
             if en is None:
                 raise ExtractError("anchor lost: %s: cannot find the end of the statement starting %r" % (fname, anchor))
-            inserts.append((en, ' ' + text + ' '))
+            inserts.append((en, text if isinstance(text, tuple) else ' ' + text + ' '))
             continue
         idxs = [m.start() for m in re.finditer(re.escape(anchor), body)]
         if len(idxs) != 1:
@@ -798,6 +813,13 @@ def _emit_fn(asm, out, unit, kv, block, default_props):
 
     obs_local = []
     for pos, ins in inserts:
+        if isinstance(ins, tuple) and ins[0] == 'named_assert':
+            _, aname, expr = ins
+            oname = '%s/%s/assert@%s' % (unit, fname, aname)
+            o = Obligation(oname, 'assert', props, fname, expr)
+            obs_local.append(o)
+            body = body[:pos] + ' proof { assert(%s); } %s\n' % (expr, marker(oname)) + body[pos:]
+            continue
         if isinstance(ins, tuple):
             _, lines, n = ins
             txt = '\n'
